@@ -48,6 +48,20 @@ CLAIMS = {
              "implementation-only oracle over returned segments, dump, stat and dir.",
              technique="Lean 4 theorems (names, segment, rotation) + correspondence/oracle on dump, directory and segments",
              ref="7 C11"),
+ "C13": dict(text="Lock protocol proved on the model for every interleaving of open / Dump::new / drop / writes / worker steps: at "
+             "most one owner, a refused attempt is the identity (no file-system event), after the owner's drop the lock is "
+             "free and an attempt is not refused for it. Kernel flock semantics is an assumption; the harness exercises it "
+             "with racing threads and processes (ownership witnessed by an O_EXCL marker file, refused attempts must not have "
+             "touched a chunk file).",
+             technique="Lean 4 invariant proof of the lock protocol + sequential correspondence + concurrent lock-race monitor",
+             ref="7 C13"),
+ "C09": dict(text="Proved kernel-only: the CRC-32 bit step is a bijection, hence any one-byte substitution anywhere in a record's "
+             "tag+body changes its CRC-32, the mutated frame is not the encoding of any record and no decode consumes exactly "
+             "that frame; altered checksum bytes likewise. Correspondence and oracle: every byte position of complete records "
+             "x bit flips on quiescent images and on a live store (read path), missing middle chunk; silent absorption outside "
+             "the two recorded finding classes is a violation.",
+             technique="Lean 4 theorems (CRC-32 injectivity, frame rejection) + corruption sweep with model correspondence",
+             ref="7 C09"),
 }
 
 NOT_YET = "check not built yet (work in progress; see DESIGN.md section 8)"
